@@ -8,6 +8,8 @@ def tasks(run):
     out += [('program', (name, seed, {'solver': 'SCS', 'eps_abs': 1e-9, 'eps_rel': 1e-9, 'max_iters': 200000}))
             for (name, seed) in models.programs(run.seed + 1, 11)]
     out += [('program', (name, seed, {'dimension_reduction_heuristic': 'trace'})) for (name, seed) in models.programs(run.seed + 2, 11)]
+    # a solve asked for the primal value exposes the same certificate
+    out += [('program', (name, seed, {'return_primal_or_dual': 'primal'})) for (name, seed) in models.programs(run.seed + 4, 7)]
     # every variant of the LMI template: symmetric as written or not, non-binding function LMI or not, binding LMI on the problem / on the function
     out += [('program', ('T_user_lmi', v, {})) for v in range(16)]
     # the same Constraint / PSDMatrix object registered twice: each registration is sent, and the exposed multipliers still certify the bound
